@@ -10,13 +10,13 @@ namespace GA.BodyIter
 open GA.Body GA.Iter GA.Own
 
 def ofIter (it : Iter) : St :=
-  { self := ⟨it.slots, it.front, it.back, 0⟩, out := ⟨[], 0, 0, 0⟩, hasOut := false, calls := 0, forgot := false }
+  { self := ⟨it.slots, it.front, it.back, 0, []⟩, out := ⟨[], 0, 0, 0, []⟩, hasOut := false, calls := 0, forgot := false, polls := 0, outForgot := false }
 
 def toIter (s : St) : Iter := ⟨s.self.slots, s.self.index, s.self.indexBack⟩
 
 /-- value-level context: no destructor panics, the caller's closure returns, `Clone::clone` returns a
     copy of the value it is given (`live` = the remaining elements, in order) -/
-def vctx (n : Nat) (live : List Nat) : Ctx := ⟨n, none, fun _ => false, fun k => live[k]?⟩
+def vctx (n : Nat) (live : List Nat) : Ctx := ⟨n, none, fun _ => false, fun k => live[k]?, fun _ => .done, (0, none)⟩
 
 def inR : R → IOut
   | .ret (.some (.elem x)) => .item (some x)
@@ -102,7 +102,7 @@ def run (it : Iter) : List IOp → List IOut × Iter
 def intoIter (l : List Nat) : Option Iter :=
   let c : Ctx := vctx l.length l
   let r := runFn c D Gen.Body.intoIter []
-    { self := ⟨l, 0, 0, 0⟩, out := ⟨[], 0, 0, 0⟩, hasOut := false, calls := 0, forgot := false }
+    { self := ⟨l, 0, 0, 0, []⟩, out := ⟨[], 0, 0, 0, []⟩, hasOut := false, calls := 0, forgot := false, polls := 0, outForgot := false }
   match r.2.1 with
   | .ret .obj => some ⟨r.2.2.out.slots, r.2.2.out.index, r.2.2.out.indexBack⟩
   | _ => none
